@@ -32,6 +32,7 @@ type Profile struct {
 }
 
 type Gen struct {
+	alt     *rand.Rand
 	r       *rand.Rand
 	p       *Profile
 	cons    []DCons
@@ -313,7 +314,31 @@ func (g *Gen) createOp() Op {
 	return op
 }
 
-func (g *Gen) add(op Op) { g.ops = append(g.ops, op) }
+// add appends an operation.  Calls that have several equivalent API entry points (Collect /
+// Assign, One / AssignOne / AssignUnique, DeleteAll / Iterator+DeleteObjects, Search.Delete /
+// Search.Iterator+DeleteObjects, variadic / ToObjectSlice, channel / ToObjectChan) pick one from a
+// PRNG of their own, so that the main random stream — and every history built from it — is unchanged.
+func (g *Gen) add(op Op) {
+	if g.alt == nil {
+		g.alt = rand.New(rand.NewSource(int64(len(g.ops))*7919 + 17))
+	}
+	switch op.Op {
+	case "collect":
+		if g.alt.Intn(20) == 0 {
+			g.ops = append(g.ops, Op{Op: []string{"expects", "expects0"}[g.alt.Intn(2)], Sid: op.Sid, N: uint64(g.alt.Intn(4))})
+		}
+		op.Alt = g.alt.Intn(2)
+	case "one":
+		if g.alt.Intn(4) == 0 {
+			op.Op = "uniq"
+		} else {
+			op.Alt = g.alt.Intn(2)
+		}
+	case "sdel", "delall", "many", "bulk":
+		op.Alt = g.alt.Intn(2)
+	}
+	g.ops = append(g.ops, op)
+}
 
 func (g *Gen) sweep() {
 	for k := 1; k <= g.p.MaxK+8; k++ {
